@@ -220,6 +220,58 @@ func cmdCheck(args []string) {
 		}
 	}
 	dischargeAll(todo, timeout, *flagWorkers)
+	// thorough: every obligation is re-run under two further solver seeds derived from VERIF_SEED;
+	// an obligation that is not discharged under every seed is reported as unstable and is then
+	// not counted as discharged. A sample is also cross-checked on cvc5 alone.
+	unstable := map[*Obl]string{}
+	crossChecked, crossAgreed := 0, 0
+	if tier == "thorough" {
+		for k := 1; k <= 2; k++ {
+			solverSeed = seed*7919 + k*104729 + 1
+			var again []*Obl
+			for _, o := range todo {
+				if o.Status == "discharged" && !o.Canary {
+					cp := *o
+					cp.Status, cp.Solver, cp.TimeMS, cp.Detail = "", "", 0, ""
+					again = append(again, &cp)
+				}
+			}
+			dischargeAll(again, timeout, *flagWorkers)
+			idx := 0
+			for _, o := range todo {
+				if o.Status == "discharged" && !o.Canary {
+					if again[idx].Status != "discharged" {
+						unstable[o] = fmt.Sprintf("seed %d: %s %s", solverSeed, again[idx].Status, again[idx].Detail)
+					}
+					idx++
+				}
+			}
+		}
+		solverSeed = 0
+		// cvc5 cross-check on every 7th obligation
+		saved := solvers
+		solvers = solvers[2:]
+		var cc []*Obl
+		for i, o := range todo {
+			if i%7 == 0 && o.Status == "discharged" && !o.Canary {
+				cp := *o
+				cp.Status, cp.Solver, cp.TimeMS, cp.Detail = "", "", 0, ""
+				cc = append(cc, &cp)
+			}
+		}
+		dischargeAll(cc, timeout, *flagWorkers)
+		for _, o := range cc {
+			crossChecked++
+			if o.Status == "discharged" {
+				crossAgreed++
+			}
+		}
+		solvers = saved
+		for o, why := range unstable {
+			o.Status = "unknown"
+			o.Detail = "unstable under solver seeds: " + why
+		}
+	}
 
 	var known KnownFile
 	loadJSON(filepath.Join(verifDir, "known_findings.json"), &known)
@@ -384,6 +436,9 @@ func cmdCheck(args []string) {
 			"obligation_list":          recs,
 			"generator_errors":         genErrs,
 			"bounded":                  boundedEv,
+			"unstable_under_seeds":     len(unstable),
+			"cvc5_cross_checked":       crossChecked,
+			"cvc5_cross_agreed":        crossAgreed,
 		},
 	}
 	os.MkdirAll(filepath.Join(outDir(), "evidence"), 0o755)
